@@ -18,6 +18,7 @@ HERE = os.path.dirname(os.path.abspath(__file__))
 sys.path.insert(0, HERE)
 REPO = os.environ.get("VERIF_REPO", "/repo")
 sys.path.insert(0, REPO)
+OUT = os.environ.get("VERIF_EVIDENCE_DIR") or HERE  # seeded-change evaluation writes evidence/replay elsewhere
 os.environ.setdefault("VERIF_SCRATCH", os.path.join(HERE, ".scratch"))
 os.makedirs(os.environ["VERIF_SCRATCH"], exist_ok=True)
 
@@ -126,7 +127,14 @@ def main():
         return do_replay(prop, a.replay)
 
     R = load_registry()
-    mine = [c for c in R.values() if c.prop == prop and not c.trusted and (not a.only or a.only in c.key)]
+    # a property may rest on the contracts of other properties (module attribute DEPENDS = ["C13", ...]): their
+    # carriers are re-verified as part of this check, so a change that breaks one of them is reported here too
+    depends = []
+    try:
+        depends = list(getattr(importlib.import_module(f"contracts.{prop}"), "DEPENDS", []))
+    except ModuleNotFoundError:
+        pass
+    mine = [c for c in R.values() if (c.prop == prop or c.prop in depends) and not c.trusted and (not a.only or a.only in c.key)]
     timeout_ms = 10000 if tier == "quick" else 60000
     obligs, carriers, errors, assumptions, covers, used_lemmas = [], [], [], set(), [], set()
     if not a.no_proof:
@@ -156,15 +164,16 @@ def main():
             used_lemmas |= v.used_lemmas
             assumptions |= v.assumptions
     if not a.no_proof and not a.only:
-        try:
-            pm = importlib.import_module(f"contracts.{prop}")
-            if hasattr(pm, "lemmas"):
-                from pyvc.engine import Oblig
+        for mod in [prop] + depends:
+            try:
+                pm = importlib.import_module(f"contracts.{mod}")
+                if hasattr(pm, "lemmas"):
+                    from pyvc.engine import Oblig
 
-                for lab, hyps, goal in pm.lemmas():
-                    obligs.append(Oblig(f"{prop}/lemma/{lab}", list(hyps), goal, "lemma", "lemma over the contracts' spec functions"))
-        except ModuleNotFoundError:
-            pass
+                    for lab, hyps, goal in pm.lemmas():
+                        obligs.append(Oblig(f"{prop}/lemma/{lab}", list(hyps), goal, "lemma", "lemma over the contracts' spec functions"))
+            except ModuleNotFoundError:
+                pass
     if used_lemmas:
         from pyvc import lemmas as _lm
         from pyvc.engine import Oblig
@@ -212,10 +221,10 @@ def main():
             errors.append(f"bounded stand-in crashed: {type(e).__name__}: {e}\n{traceback.format_exc(limit=8)}")
 
     known = load_known()
-    os.makedirs(os.path.join(HERE, "replay"), exist_ok=True)
+    os.makedirs(os.path.join(OUT, "replay"), exist_ok=True)
     import glob
 
-    for old in glob.glob(os.path.join(HERE, "replay", f"{prop}-*.json")):
+    for old in glob.glob(os.path.join(OUT, "replay", f"{prop}-*.json")):
         os.remove(old)
     lines, nviol, known_hit = [], 0, []
     bviol = list(bctx.violations) if bctx else []
@@ -228,7 +237,7 @@ def main():
         fn = name.split("/")[1]
         match = next((i for i, b in enumerate(bviol) if b["carrier"].split(".")[-1] == fn.split(".")[-1] or b["carrier"] == fn), None)
         nviol += 1
-        path = os.path.join(HERE, "replay", f"{prop}-{nviol}.json")
+        path = os.path.join(OUT, "replay", f"{prop}-{nviol}.json")
         rec = dict(property=prop, obligation=name, kind=r.get("kind"), note=r.get("note"), solver=r["backend"], verdict=r["verdict"], reason=r.get("reason"), counter_model=(r.get("model") or "")[:4000])
         if match is not None:
             used_b.add(match)
@@ -252,7 +261,7 @@ def main():
             if (b2["carrier"], b2["clause"]) == (b["carrier"], b["clause"]):
                 used_b.add(i2)
         nviol += 1
-        path = os.path.join(HERE, "replay", f"{prop}-{nviol}.json")
+        path = os.path.join(OUT, "replay", f"{prop}-{nviol}.json")
         json.dump(dict(property=prop, obligation=f"bounded:{b['carrier']}/{b['clause']}", failing_input=b), open(path, "w"), indent=1, default=str)
         lines.append(f"VIOLATION property={prop} replay={path} bounded={b['carrier']}/{b['clause']}")
         if nviol > 25:
@@ -310,8 +319,8 @@ def main():
         assumptions=sorted(assumptions) + ["python ints are mathematical; numpy ints do not overflow", "floats are real numbers (no rounding)"],
         wall_s=round(time.time() - t0, 2), violations=nviol,
     )
-    os.makedirs(os.path.join(HERE, "evidence"), exist_ok=True)
-    json.dump(ev, open(os.path.join(HERE, "evidence", f"{prop}.json"), "w"), indent=1, default=str)
+    os.makedirs(os.path.join(OUT, "evidence"), exist_ok=True)
+    json.dump(ev, open(os.path.join(OUT, "evidence", f"{prop}.json"), "w"), indent=1, default=str)
 
     if a.v or errors or undecided:
         for e in errors:
